@@ -42,7 +42,7 @@ m = {
     "hooks": {
         "guard": "verif",
         "enable": "go build -tags verif (the harness module replaces github.com/DavidGamba/go-getoptions with /repo)",
-        "baseline_off_cmd": "cd /repo && export GOFLAGS=-mod=mod GOPROXY=off GOSUMDB=off && go test -vet=off -count=1 ./... && cd internal/completion/test && go test -vet=off -count=1 ./...",
+        "baseline_off_cmd": "for m in . ./internal/completion/test; do (cd /repo/$m && GOFLAGS=-mod=mod GOPROXY=off GOSUMDB=off go test -json -vet=off -count=1 -timeout 25m ./...); done",
         "source_commits": ["c7ff168", "2ddb250"],
         "add_only": True,
     },
